@@ -41,7 +41,15 @@ class Cmp(object):
         if isinstance(a, Num) and isinstance(b, Num):
             if ep.equal(a.rf, b.rf)[0]:
                 return True
-            return rf_struct_eq(a.rf, b.rf)
+            if rf_struct_eq(a.rf, b.rf):
+                return True
+            return case_split_eq(a.rf, b.rf)
+        if isinstance(a, Phi) and isinstance(b, Num):
+            try:
+                fa = self.I.num(a)
+            except Exception:
+                return False
+            return ep.equal(fa, b.rf)[0] or case_split_eq(fa, b.rf)
         if isinstance(a, Num) and isinstance(b, Opaque):
             return ep.equal(a.rf, ep.app(b.path, []))[0]
         if isinstance(b, Num) and isinstance(a, Opaque):
@@ -282,3 +290,46 @@ def atom_eq(a, b):
     if isinstance(a, ep.ExpA) and isinstance(b, ep.ExpA):
         return rf_struct_eq(ep.RF(a.arg), ep.RF(b.arg))
     return False
+
+
+def _phi_atoms(x):
+    return [a for a in ep.rf(x).atoms() if isinstance(a, ep.AppA) and isinstance(a.fn, tuple) and a.fn and a.fn[0] == "phi"]
+
+
+def case_split_eq(found, expect, depth=0):
+    """found contains a selection phi(x == c ? A : B): equal to expect iff A = expect at x = c and B = expect otherwise"""
+    if depth > 3:
+        return False
+    phis = _phi_atoms(found)
+    if not phis:
+        return False
+    p = phis[0]
+    cond = p.fn[1]
+    # ('cond', 'cmp', op, ('num', L), ('num', R))
+    if not (isinstance(cond, tuple) and len(cond) == 5 and cond[1] == "cmp" and cond[2] in ("==", "!=")):
+        return False
+    L, R = cond[3][1], cond[4][1]
+    diff = L - R
+    syms = [a for a in diff.atoms() if isinstance(a, ep.Sym)]
+    if len(syms) != 1 or diff.df:
+        return False
+    s = syms[0].name
+    # solve diff = a*s + b = 0
+    a_coef = ep.D(diff, s)
+    if a_coef.depends_on(s) or a_coef.is_zero():
+        return False
+    b_coef = ep.substitute(diff, {s: ep.const(0)})
+    root = -b_coef / a_coef
+    then_i, else_i = (0, 1) if cond[2] == "==" else (1, 0)
+
+    def pick(i):
+        return {("fn", p.fn, p.dorder): (lambda *args, i=i: args[i])}
+    env1 = pick(then_i)
+    env1[s] = root
+    f1 = ep.substitute(found, env1)
+    e1 = ep.substitute(expect, {s: root})
+    ok1 = ep.equal(f1, e1)[0] or rf_struct_eq(f1, e1) or case_split_eq(f1, e1, depth + 1)
+    if not ok1:
+        return False
+    f2 = ep.substitute(found, pick(else_i))
+    return ep.equal(f2, expect)[0] or rf_struct_eq(f2, expect) or case_split_eq(f2, expect, depth + 1)
